@@ -14,14 +14,23 @@ Proof.
   - intros ->. unfold cls_eqb. apply N.eqb_refl.
 Qed.
 
-Lemma issubclass_step c p d : parent c = Some p -> issubclass p d = true -> issubclass c d = true.
-Proof. destruct c; intro H; inversion H; subst; destruct d; vm_compute; intro; try reflexivity; discriminate. Qed.
+Lemma issubclass_step c p d : In p (parents c) -> issubclass p d = true -> issubclass c d = true.
+Proof.
+  destruct c; simpl; intro H;
+    repeat (destruct H as [<-|H]; [destruct d; vm_compute; intro; try reflexivity; discriminate|]); destruct H.
+Qed.
+
+Lemma issub_fuel_sound f : forall c d, issub_fuel f c d = true -> Ancestor c d.
+Proof.
+  induction f as [|f IH]; intros c d H; simpl in H; apply orb_true_iff in H; destruct H as [H|H].
+  - apply cls_eqb_eq in H. subst. apply anc_refl.
+  - discriminate.
+  - apply cls_eqb_eq in H. subst. apply anc_refl.
+  - apply existsb_exists in H. destruct H as (p & Hin & Hp). eapply anc_step; [exact Hin|]. apply IH. exact Hp.
+Qed.
 
 Lemma issubclass_sound c d : issubclass c d = true -> Ancestor c d.
-Proof.
-  destruct c, d; vm_compute; intro H; try discriminate;
-    repeat (first [ apply anc_refl | eapply anc_step; [reflexivity|] ]).
-Qed.
+Proof. apply issub_fuel_sound. Qed.
 
 Lemma issubclass_iff c d : issubclass c d = true <-> Ancestor c d.
 Proof.
@@ -100,9 +109,40 @@ Lemma default_matches k : isinstance_spec k default_exceptions = true <-> Ancest
 Proof. unfold default_exceptions. simpl. apply issubclass_iff. Qed.
 
 Lemma default_excludes :
-  forall k, In k [C_BaseException; C_KeyboardInterrupt; C_SystemExit; C_GeneratorExit; C_UserBase; C_UserExit] ->
+  forall k, In k [C_BaseException; C_KeyboardInterrupt; C_SystemExit; C_GeneratorExit; C_UserBase; C_UserExit;
+                  C_BaseExceptionGroup; C_UserBaseGroup] ->
   isinstance_spec k default_exceptions = false.
 Proof. intros k H. simpl in H. repeat (destruct H as [<-|H]; [reflexivity|]). destruct H. Qed.
+
+(* ---- exception groups: classes of the hierarchy like any other; what they hold is not looked at ---- *)
+Lemma exception_group_ancestors d :
+  Ancestor C_ExceptionGroup d <-> In d [C_ExceptionGroup; C_BaseExceptionGroup; C_Exception; C_BaseException].
+Proof.
+  rewrite <- issubclass_iff.
+  destruct d; split; intro H; try reflexivity; try discriminate H; try (simpl; auto 8);
+    simpl in H; intuition discriminate.
+Qed.
+
+Lemma base_exception_group_ancestors d :
+  Ancestor C_BaseExceptionGroup d <-> In d [C_BaseExceptionGroup; C_BaseException].
+Proof.
+  rewrite <- issubclass_iff.
+  destruct d; split; intro H; try reflexivity; try discriminate H; try (simpl; auto 8);
+    simpl in H; intuition discriminate.
+Qed.
+
+Lemma group_matches_by_class e :
+  (isinstance_spec C_ExceptionGroup e = true <->
+   exists d, In d (spec_classes e) /\ In d [C_ExceptionGroup; C_BaseExceptionGroup; C_Exception; C_BaseException]) /\
+  (isinstance_spec C_BaseExceptionGroup e = true <->
+   exists d, In d (spec_classes e) /\ In d [C_BaseExceptionGroup; C_BaseException]).
+Proof.
+  rewrite !isinstance_spec_classes. split; split; intros (d & Hin & Ha); exists d; (split; [exact Hin|]).
+  - apply exception_group_ancestors; exact Ha.
+  - apply exception_group_ancestors; exact Ha.
+  - apply base_exception_group_ancestors; exact Ha.
+  - apply base_exception_group_ancestors; exact Ha.
+Qed.
 
 (* ====================================================================================================== *)
 (* part (a): field-by-field behaviour of tick / enter / exit                                              *)
@@ -458,6 +498,30 @@ Lemma counts_nothing_configured c e b s :
 Proof.
   intros H c'. rewrite counts_configured. unfold escapes_matching.
   destruct (result b) as [v|k o]; [rewrite andb_false_r; lia|]. rewrite (spec_no_class k e H), andb_false_r. lia.
+Qed.
+
+(* a raised exception of class k under count_exceptions(e): one more exactly when isinstance(k-object, e) *)
+Lemma raise_counted c e k o s :
+  cnt (snd (eval (Call (count_exceptions c (Some e)) (Raise k o)) s)) c - cnt s c =
+  if isinstance_spec k e then 1 else 0.
+Proof.
+  rewrite counts_configured, N.eqb_refl. unfold escapes_matching. cbn [result eval snd andb].
+  destruct (isinstance_spec k e); lia.
+Qed.
+
+Lemma group_counted_by_class c e o s :
+  let run := fun k => cnt (snd (eval (Call (count_exceptions c (Some e)) (Raise k o)) s)) c - cnt s c in
+  (run C_ExceptionGroup = 1 <->
+   exists d, In d (spec_classes e) /\ In d [C_ExceptionGroup; C_BaseExceptionGroup; C_Exception; C_BaseException]) /\
+  (run C_BaseExceptionGroup = 1 <->
+   exists d, In d (spec_classes e) /\ In d [C_BaseExceptionGroup; C_BaseException]) /\
+  (forall k, run k = if isinstance_spec k e then 1 else 0).
+Proof.
+  intro run. unfold run. destruct (group_matches_by_class e) as [H1 H2].
+  split; [|split].
+  - rewrite raise_counted, <- H1. destruct (isinstance_spec C_ExceptionGroup e); split; intro; auto; discriminate.
+  - rewrite raise_counted, <- H2. destruct (isinstance_spec C_BaseExceptionGroup e); split; intro; auto; discriminate.
+  - intro k. apply raise_counted.
 Qed.
 
 (* ---- what the body sees while it runs ---- *)
